@@ -111,6 +111,9 @@ func newRealWorld(t fataler, defs *definition.PipelinesDef, killTimeout time.Dur
 		opts := []taskctl.Opts{taskctl.WithEnv(variables.FromMap(j.Env))}
 		if killTimeout > 0 {
 			opts = append(opts, taskctl.WithKillTimeout(killTimeout))
+		} else if killTimeout < 0 {
+			// explicitly none: the process group is killed at once
+			opts = append(opts, taskctl.WithKillTimeout(0))
 		}
 		tr, _ := taskctl.NewTaskRunner(out, opts...)
 		tr.Stdout = io.Discard
